@@ -16,6 +16,7 @@ ASSUMPTIONS = [
 ]
 SPEC = {
     'quick': [('K20', 'std', 3),
+              ('K39', 'small', 3),
               ('lasso3', 'K0', 'reidx', 20),
               ('K27', 'small', 3),
               ('K0p', 'small', 3),
@@ -27,7 +28,7 @@ SPEC = {
               ('K1', 'small', 4),
               ('lasso', 'K0', 'liq', 2, 30),
               ('lasso', 'K5', 'pairs2', 2, 60)],
-    'conf_quick': [('K0', 3)],
+    'conf_quick': [('K0', 3), ('K39', 3)],
     'conf_thorough': [('K0', 3), ('K9', 3)],
 }
 SPEC['thorough'] = X.thorough_spec(SPEC['quick'], [('K1', 'lend'), ('K10', 'lend')])
